@@ -265,7 +265,12 @@ class CoordinateComponent(Component):
             # If the view is a tuple or list of arrays, we should actually just
             # convert these straight to world coordinates since the indices
             # of the pixel coordinates are the pixel coordinates themselves.
-            if isinstance(view, (tuple, list)) and isinstance(view[0], np.ndarray):
+            # This is also the case if some of the items are integers, which
+            # Numpy broadcasts to the shape of the arrays when indexing.
+            if (isinstance(view, (tuple, list)) and
+                    any(isinstance(v, np.ndarray) for v in view) and
+                    all(isinstance(v, np.ndarray) or np.isscalar(v) for v in view)):
+                view = np.broadcast_arrays(*view)
                 axis = self._data.ndim - 1 - self.axis
                 return pixel2world_single_axis(self._data.coords, *view[::-1],
                                                world_axis=axis)
